@@ -341,8 +341,8 @@ func runProperty(w *World, prop, tier, vdir string, start time.Time, writeBaseli
 			if strings.HasPrefix(kind, "in(") && len(parts) > 2 {
 				continue
 			}
-			if !contractKind(kind) {
-				continue
+			if !(kind == "ensures" || kind == "lemma" || kind == "reset" || kind == "callsite" || kind == "footprint") {
+				continue // calls and loops may legitimately disappear in a refactoring
 			}
 			// the function may be undecided (already reported)
 			fnOK := false
